@@ -21,12 +21,12 @@ func VF_C05_ReaderAfterBatch(unsafe int) {
 	w, err := OpenWriter(vfLiveConfig(dir, unsafe == 1))
 	vfAssert(err == nil && w != nil, "OpenWriter succeeds on an empty directory")
 	p1, p2 := vfByte("payload"), vfByte("payload")
-	vfAssert(w.Batch(vfStepBatch(vfStep{0, 1, p1})) == nil, "first Batch succeeds")
+	vfAssert(w.Batch(vfStepBatch(vfStep{op: 0, id: 1, payload: p1})) == nil, "first Batch succeeds")
 	r1, err := w.Reader()
 	vfAssert(err == nil && r1 != nil, "a reader can be obtained")
 	got := vfSortedContent(r1)
 	vfAssert(len(got) == 1 && got[0] == vfSeen{1, p1}, "a Reader obtained after Batch returned reflects that batch")
-	vfAssert(w.Batch(vfStepBatch(vfStep{0, 1, p2})) == nil, "second Batch succeeds")
+	vfAssert(w.Batch(vfStepBatch(vfStep{op: 0, id: 1, payload: p2})) == nil, "second Batch succeeds")
 	r2, err := w.Reader()
 	vfAssert(err == nil && r2 != nil, "a reader can be obtained")
 	got = vfSortedContent(r2)
@@ -64,7 +64,7 @@ func VF_C05_ConflictingWriters(unsafe int) {
 		i := i
 		wg.Add(1)
 		go func() {
-			vfAssert(w.Batch(vfStepBatch(vfStep{0, 1, pay[i]})) == nil, "Batch succeeds")
+			vfAssert(w.Batch(vfStepBatch(vfStep{op: 0, id: 1, payload: pay[i]})) == nil, "Batch succeeds")
 			r, err := w.Reader()
 			vfAssert(err == nil && r != nil, "a reader can be obtained")
 			got := vfSortedContent(r)
